@@ -545,7 +545,7 @@ func main() {
 		if thorough {
 			exhaustiveFresh(13)
 		} else {
-			exhaustiveFresh(10)
+			exhaustiveFresh(11)
 		}
 	case "dup":
 		if thorough {
@@ -566,7 +566,7 @@ func main() {
 		if thorough {
 			random(r, 30000, 1500)
 		} else {
-			random(r, 2500, 600)
+			random(r, 4000, 600)
 		}
 	}
 }
